@@ -85,9 +85,11 @@ StorageAlts == { P("nostorage", 0, <<>>), P("static", 1, <<T("static")>>), P("ex
                  P("inline", 1, <<T("inline")>>), P("noreturn", 1, <<T("_Noreturn")>>),
                  P("alignas_c", 1, <<T("_Alignas"), T("("), E(3), T(")")>>),
                  P("alignas_t", 1, <<T("_Alignas"), T("("), N("typename", 0), T(")")>>) }
-\* declspecs(ctx): ctx 0 = full declaration specifiers, 1 = specifier-qualifier list
+\* declspecs(ctx): ctx 0 = full declaration specifiers, 1 = specifier-qualifier list of a type name,
+\* 2 = specifier-qualifier list of a struct member (may start with an alignment specifier, C11 6.7.2.1 as
+\* amended by DR 444; in a type name gcc and C11 proper do not allow one)
 DeclSpecAlts(ctx) ==
-  { P("specs", 0, (IF ctx = 0 THEN <<N("storage", 0)>> ELSE <<N("salign", 0)>>) \o <<N("qual", 0), N("typespec", 0), N("qualT", 0)>>) }
+  { P("specs", 0, (IF ctx = 0 THEN <<N("storage", 0)>> ELSE IF ctx = 2 THEN <<N("salign", 0)>> ELSE <<>>) \o <<N("qual", 0), N("typespec", 0), N("qualT", 0)>>) }
 \* an alignment specifier may also head the specifier-qualifier list of a struct member (C11 6.7.2.1)
 SAlignAlts == { P("nosalign", 0, <<>>), P("member_alignas", 1, <<T("_Alignas"), T("("), E(3), T(")")>>) }
 \* declarator(kind): 0 named, 1 abstract (possibly empty)
@@ -118,10 +120,10 @@ ParamDeclAlts == { P("pnamed", 0, <<N("declspecs", 0), N("declarator", 0)>>), P(
   \cup { [n |-> "p:" \o a.n, c |-> 1, r |-> <<N("declspecs", 0), T("x")>> \o a.r \o <<N("suffix", 0)>>] : a \in ParamArr }
   \cup { [n |-> "pabs:" \o a.n, c |-> 1, r |-> <<N("declspecs", 0)>> \o a.r \o <<N("suffix", 0)>>] : a \in ParamArr }
 TypenameAlts == { P("typename", 0, <<N("declspecs", 1), N("declarator", 1)>>) }
-StructDeclAlts == { P("field", 0, <<N("declspecs", 1), N("declarator", 0), T(";")>>),
-                    P("fields2", 1, <<N("declspecs", 1), N("declarator", 0), T(","), N("declarator", 0), T(";")>>),
-                    P("bitfield", 1, <<N("declspecs", 1), N("declarator", 0), T(":"), E(3), T(";")>>),
-                    P("anonbitfield", 1, <<N("declspecs", 1), T(":"), E(3), T(";")>>),
+StructDeclAlts == { P("field", 0, <<N("declspecs", 2), N("declarator", 0), T(";")>>),
+                    P("fields2", 1, <<N("declspecs", 2), N("declarator", 0), T(","), N("declarator", 0), T(";")>>),
+                    P("bitfield", 1, <<N("declspecs", 2), N("declarator", 0), T(":"), E(3), T(";")>>),
+                    P("anonbitfield", 1, <<N("declspecs", 2), T(":"), E(3), T(";")>>),
                     P("anonmember", 1, <<T("struct"), T("{"), N("structdecl", 0), T("}"), T(";")>>),
                     P("sassert_in_struct", 1, <<N("sassert", 0)>>),
                     P("pragma_in_struct", 1, <<T("\n#pragma p\n")>>) }
@@ -143,6 +145,23 @@ DeclAlts == { P("decl", 0, <<N("declspecs", 0), N("initdecl", 0), T(";")>>),
 VDeclAlts == { P("vdecl", 0, <<N("declspecs", 0), N("initdecl", 0), T(";")>>),
                P("vdecl2", 1, <<N("declspecs", 0), N("initdecl", 0), T(","), N("initdecl", 0), T(";")>>) }
 InitDeclAlts == { P("idecl", 0, <<N("declarator", 0)>>), P("idecl=", 1, <<N("declarator", 0), T("="), N("init", 0)>>) }
+\* ---------- the typedef-name rule (6.2.1p4, 6.7.7): an inner declaration may reuse the typedef name T as the name
+\* of an object or parameter; from the end of its declarator to the end of its block T is an ordinary identifier.
+\* `hide` is the declared name; it is recorded in feat although it costs nothing, and TypeOfT (below) keeps the
+\* productions that use T as a type out of the rest of the derivation.
+HideAlts == { P("hideT", 0, <<T("T")>>) }
+ShadowStmts(c) ==
+  { P("shadow", 1, <<T("{"), N("declspecs", 0), N("ptr", 0), N("hide", 0), N("suffix", 0), T(";"), T("T"), T("++"), T(";"), T("}")>>),
+    P("shadow=", 1, <<T("{"), N("declspecs", 0), N("ptr", 0), N("hide", 0), T("="), N("init", 0), T(";"), T("}")>>),
+    P("shadow2nd", 1, <<T("{"), N("declspecs", 0), T("x"), T(","), N("ptr", 0), N("hide", 0), N("suffix", 0), T(";"), T("}")>>),
+    P("shadowparen", 1, <<T("{"), N("declspecs", 0), T("("), N("hide", 0), T(")"), N("suffix", 0), T(";"), T("}")>>),
+    P("shadowfor", 1, <<T("for"), T("("), N("declspecs", 0), N("ptr", 0), N("hide", 0), T("="), N("init", 0), T(";"), T(";"), T(")"), N("stmt", c)>>) }
+ShadowExts ==
+  { P("funcdef_hideparam", 1, <<T("void"), T("f"), T("("), N("declspecs", 0), N("ptr", 0), N("hide", 0), N("suffix", 0), T(")"), T("{"), N("items", 0), T("}")>>),
+    P("funcdef_hideparam_paren", 1, <<T("void"), T("f"), T("("), N("declspecs", 0), T("("), T("*"), N("qualT", 0), N("hide", 0), T(")"), N("suffix", 0), T(")"), T("{"), N("items", 0), T("}")>>),
+    P("funcdef_hideparam2", 1, <<T("void"), T("f"), T("("), T("int"), T("x"), T(","), N("declspecs", 0), N("ptr", 0), N("hide", 0), T(")"), T("{"), N("items", 0), T("}")>>) }
+TypeOfT == {"typedefname", "atomic_T"}
+
 \* ---------- statements; param: 1 = must be "closed" (followed by else), 0 = free
 S(c) == N("stmt", c)
 StmtAlts(c) ==
@@ -160,6 +179,7 @@ StmtAlts(c) ==
     P("return", 1, <<T("return"), T(";")>>), P("returne", 1, <<T("return"), E(1), T(";")>>),
     P("pragmastmt", 1, <<T("\n#pragma p\n"), S(c)>>), P("_Pragma", 1, <<T("_Pragma"), T("("), T("\"p\""), T(")"), S(c)>>) }
   \cup (IF c = 0 THEN { P("if", 1, <<T("if"), T("("), E(1), T(")"), S(0)>>) } ELSE {})
+  \cup ShadowStmts(c)
 ItemsAlts == { P("item1", 0, <<N("item", 0)>>), P("items2", 1, <<N("item", 0), N("item", 0)>>), P("noitems", 1, <<>>) }
 ItemAlts == { P("itemstmt", 0, <<S(0)>>), P("itemdecl", 1, <<N("decl", 0)>>) }
 \* ---------- external declarations
@@ -168,7 +188,7 @@ ExtAlts == { P("extdecl", 0, <<N("decl", 0)>>),
              P("funcdef_void", 1, <<T("void"), T("f"), T("("), T("void"), T(")"), T("{"), N("items", 0), T("}")>>),
              P("funcdef_kr", 1, <<T("int"), T("f"), T("("), T("p"), T(")"), T("int"), T("p"), T(";"), T("{"), N("items", 0), T("}")>>),
              P("funcdef_implicit", 1, <<T("f"), T("("), T(")"), T("{"), N("items", 0), T("}")>>),
-             P("stray;", 1, <<T(";")>>), P("filepragma", 1, <<T("\n#pragma p\n")>>) }
+             P("stray;", 1, <<T(";")>>), P("filepragma", 1, <<T("\n#pragma p\n")>>) } \cup ShadowExts
 TUAlts == { P("tu1", 0, <<N("ext", 0)>>), P("tu2", 1, <<N("ext", 0), N("ext", 0)>>) }
 
 Alts(nt, p) ==
@@ -179,7 +199,7 @@ Alts(nt, p) ==
     [] nt = "typename" -> TypenameAlts [] nt = "structdecl" -> StructDeclAlts [] nt = "enumerator" -> EnumeratorAlts
     [] nt = "init" -> InitAlts [] nt = "initlist" -> InitListAlts [] nt = "inititem" -> InitItemAlts [] nt = "sassert" -> SAssertAlts
     [] nt = "decl" -> DeclAlts [] nt = "vdecl" -> VDeclAlts [] nt = "initdecl" -> InitDeclAlts [] nt = "stmt" -> StmtAlts(p) [] nt = "items" -> ItemsAlts
-    [] nt = "item" -> ItemAlts [] nt = "ext" -> ExtAlts [] nt = "tu" -> TUAlts
+    [] nt = "item" -> ItemAlts [] nt = "hide" -> HideAlts [] nt = "ext" -> ExtAlts [] nt = "tu" -> TUAlts
 
 Prelude == <<T("typedef"), T("int"), T("T"), T(";")>>
 Roots == { Prelude \o r : r \in {
@@ -195,8 +215,9 @@ Init == stack \in Roots /\ toks = <<>> /\ fuel = Fuel /\ feat = <<>>
 Expand == /\ stack # <<>> /\ Head(stack)[1] = "N"
           /\ \E a \in Alts(Head(stack)[2], Head(stack)[3]) :
                /\ a.c <= fuel /\ fuel' = fuel - a.c
+               /\ (a.n \in TypeOfT => \A i \in DOMAIN feat : feat[i] # "hideT")
                /\ stack' = a.r \o Tail(stack)
-               /\ feat' = IF a.c > 0 THEN Append(feat, a.n) ELSE feat
+               /\ feat' = IF a.c > 0 \/ a.n = "hideT" THEN Append(feat, a.n) ELSE feat
           /\ UNCHANGED toks
 Emit == /\ stack # <<>> /\ Head(stack)[1] = "T"
         /\ toks' = Append(toks, Head(stack)[2]) /\ stack' = Tail(stack) /\ UNCHANGED <<fuel, feat>>
